@@ -21,7 +21,8 @@ CHECKS['C17'] = (
     'All 25 (thorough: +729) small trees x all start nodes x all paths up to length 4 are enumerated exhaustively, larger trees/paths '
     'are sampled; each case checks navigation against a lexical reference by node identity and the dict helpers against pure reference functions.',
     'Trusts vv/ref/paths.py. Walks are "defined" only if every prefix exists; dict-helper paths do not descend through non-dict leaves; '
-    'update_in is only required to return the right dictionary.')
+    'update_in may create missing keys (as empty dictionaries) in its input but must leave every existing entry alone. Trees are '
+    'static; path_for after moves is checked by C09.')
 
 CHECKS['C14'] = (
     'Hypothesis-generated value trees: round-trip against a structural reference, plain-JSON predicate, idempotence, TypeError for a negative class',
@@ -35,16 +36,17 @@ CHECKS['C18'] = (
     'Hypothesis-generated raw histories and query sets: cell-by-cell transposition oracle and round trip, through pure functions, RAMEmitter and a real Engine',
     'Generated search over fixed-shape histories with falsy values and quantities; every timeseries/path-timeseries cell is '
     'compared with the raw data it came from and the query result with an independently computed projection.',
-    'Histories have one shape at all times, no variable is called "time", no None values; query paths do not descend through a leaf value; '
-    'int magnitudes may read back as equal floats.')
+    'Timeseries clauses: histories have one shape at all times (ragged histories only for the query clause); no top-level variable '
+    'is called "time" (nested ones may be); query paths do not descend through a leaf value; int magnitudes may read back as equal '
+    'floats; for raw data held out of time order only the alignment with the returned time vector is required.')
 
 CHECKS['C08'] = (
     'Hypothesis-generated variables/updaters/batches vs. a reference fold of the documented updater algebra (differential), three delivery routes',
     'Generated search over every registered updater plus a user function, values in each updater domain, batches delivered as '
     'separate updates, _multi_update lists or an Engine tick; final values are compared with a left-to-right reference fold, '
     'unmentioned variables by identity, the update object with its pre-call copy, unit variables by units and magnitude.',
-    'Trusts vv/ref/updaters.py. merge only on flat dicts; magnitudes compared at rel 1e-12; dict_value update-unmodified clause '
-    'only when one update hits the variable.')
+    'Trusts vv/ref/updaters.py. merge only on flat dicts; magnitudes compared at rel 1e-12 (relative to the largest converted term '
+    'when terms cancel); dict_value update-unmodified clause only when one update hits the variable.')
 
 CHECKS['C01'] = (
     'Hypothesis-generated schedules; history invariant over a totally ordered event log (exactly-once / on-time / in-order application, observable sum form)',
@@ -52,12 +54,14 @@ CHECKS['C01'] = (
     'application observable with its simulated time, so lost, duplicated, early, late or reordered updates are detected for any schedule '
     'within the bounded sizes.',
     'Serial processes only (parallel covered through C13 equivalence). Interval start after a quiet poll = time of the next poll; '
-    're-poll time of quiet processes not asserted. <=4 processes, <=5 calls.')
+    're-poll time of quiet processes not asserted. <=4 processes, <=5 calls (thorough: up to 6 and 8).')
 CHECKS['C02'] = (
     'Hypothesis-generated schedules ending in forced completion; interval accounting invariant rebuilt from the event log, plus vivarium Clock as differential witness',
     'Generated search over timesteps that do not divide run lengths, chunked calls, initial times and precisions; checks timestep '
     'argument == interval length, contiguity, sum == elapsed, fronts complete.',
-    'No condition-false polls (quantifier is over timesteps and calls). Decimal-grid times compared at 1e-9. <=4 processes.')
+    'No condition-false polls (quantifier is over timesteps and calls). Decimal-grid times compared at 1e-9. Cases of C03\'s known '
+    'finding F03b (a waiting process polled again asks for an interval ending in the past) are excluded by construction and counted '
+    'as rejected. <=4 processes (thorough: 6).')
 CHECKS['C03'] = (
     'Hypothesis-generated adaptive poll/condition scripts (incl. empty and all-quiet composites); clock invariants over the event log, deterministic poll budget for termination',
     'Generated search over answer sequences; global_time is read in every callback/emit/return: monotone, bounded by the call end, exact '
@@ -67,13 +71,14 @@ CHECKS['C04'] = (
     'history invariant (same-instant invocations and same-layer steps see one committed whole-state snapshot, no apply in between) + metamorphic listing-permutation relation between two engine runs',
     'Generated schedules with whole-hierarchy snapshots taken inside callbacks; and pairs (canonical, permuted listing of processes/steps/flow/'
     'topology/ports/initial state) of composites with state-dependent but commuting updates whose trajectories must be identical.',
-    'Derivers are not permuted (order-sensitive by specification). Updates are integer accumulates / sets on distinct variables.')
+    'Derivers are not permuted (order-sensitive by specification). Updates are integer accumulates / sets on distinct variables. '
+    'No structural updates in these composites (stale views after structural updates are C07\'s).')
 
 CHECKS['C05'] = (
     'Hypothesis-generated step DAGs, derivers and nesting; history invariant over the event log against a reference longest-path layering (stamps seen by each step)',
     'Generated search over DAG shapes, deriver placements, nesting depths and schedules; each step records the done-stamps it sees, so missing/'
     'duplicated runs, wrong order, updates applied too late/early within a phase and phases at the wrong moment are detected for every generated flow.',
-    'Trusts vv/ref/layers.py. Order between derivers of the two dictionaries not asserted; ".." flow dependencies rejected at construction are counted, not flagged. <=7 flow steps, <=4 derivers, depth <=2.')
+    'Trusts vv/ref/layers.py. Order between derivers of the two dictionaries not asserted; ".." flow dependencies rejected at construction are counted, not flagged. The DAG is fixed at construction (steps created later are C10\'s). <=7 flow steps, <=4 derivers, depth <=2.')
 
 CHECKS['C06'] = (
     'hierarchy-first Hypothesis generator (target tree first, ports/topologies derived, wiring map W recorded) with a construction-time ground-truth oracle: read == W-node value, write == W-node + increment, frame condition',
@@ -86,7 +91,7 @@ CHECKS['C07'] = (
     'Every calculate_timestep/update_condition/next_update call of every observed process is compared for exact shape and values with a '
     'projection of the live hierarchy through the generator\'s wiring map, statically (masking, output ports, globs) and across generated '
     '_add/_delete/_move/_generate/_divide histories with viewers of different timesteps.',
-    'Projection trusts Store.get_value() for raw values. Histories <=6 batches, <=3 viewers.')
+    'Projection trusts Store.get_value() for raw values (and Store.outer for the anchor of moved residents). Histories <=6 batches, <=3 viewers.')
 CHECKS['C09'] = (
     'model-based stateful generation (reference dict-tree threaded through a composite Hypothesis strategy) compared with the real hierarchy after every batch, plus Store-identity frame condition',
     'Generated histories of structural operations (all five kinds, combined batches, nested targets, operator as process or step) are '
@@ -97,7 +102,8 @@ CHECKS['C10'] = (
     'Generated histories with resident processes/steps of drawn timesteps (updates in flight at structural changes), run unforced; checks that '
     'only instances living in the hierarchy run, steps exactly once per phase, processes on contiguous intervals from creation, published '
     'processes/steps/flow/topology (and the source Composite) equal the hierarchy, and a second engine rebuilt from the published composite continues identically.',
-    'Fate of an in-flight update of a removed/moved process not asserted. Operator is a process. <=6 batches.')
+    'Fate of an in-flight update of a removed/moved process not asserted. Which of the two dictionaries (processes/steps) holds a '
+    'step is not compared; the relative order of a compartment\'s legacy derivers and flow-less steps is not observable (seeded change C10g is not caught). <=6 batches (thorough 10).')
 CHECKS['C11'] = (
     'Hypothesis-generated mother states x divider assignments x division triggers; per-divider conservation laws (valid for every random outcome) and an independence (non-interference) check over later ticks',
     'Generated search over values in each divider\'s domain (incl. large ints, non-dyadic floats, quantities, inf, branch-level and '
@@ -127,7 +133,7 @@ CHECKS['C13'] = (
     'generated, divided while idle, due in the same batch or in flight) x shutdown plans; trajectories, final state and published composite must '
     'be identical to the serial run, no exception may occur, and after shutdown no worker OS process may be alive.',
     'The harness owns the schedule (single-threaded engine, synchronous workers); crashes/signals inside a worker are outside the technique. '
-    'Division by copying a mother holding a ParallelProcess is not generated. ~30 cases per shard in the quick tier.')
+    'Division by copying a mother holding a ParallelProcess is not generated. 100 cases per shard in the quick tier.')
 
 NOT_YET = 'check not built yet in this session (planned, see DESIGN.md section 8)'
 
